@@ -26,6 +26,7 @@ type ReopenResult struct {
 	Docs2 []ctl.Doc `json:"docs2,omitempty"`
 	Has2  bool      `json:"has2"`
 	Note  string    `json:"note,omitempty"`
+	Obs   *ctl.Obs  `json:"obs,omitempty"` // the full first observation (count, match-all, per-id lookups)
 }
 
 // SegVersion is the segment format the images were written with.
@@ -102,7 +103,7 @@ func reopenWriter(path string, ids []string) (res ReopenResult) {
 		_ = w.Close()
 		return
 	}
-	o := ctl.Observe(r, ids, false)
+	o := ctl.Observe(r, ids, true)
 	_ = r.Close()
 	if o.Err != "" {
 		res.Err = "observe: " + o.Err
@@ -110,6 +111,7 @@ func reopenWriter(path string, ids []string) (res ReopenResult) {
 		return
 	}
 	res.Docs = o.Docs
+	res.Obs = &o
 	b, _, _ := ctl.MakeBatch(9999, []ctl.Op{{Kind: "upd", ID: "zz"}})
 	if err = w.Batch(b); err != nil {
 		res.Err = "batch: " + err.Error()
